@@ -467,6 +467,26 @@ def fresh_scope_rule(ctx, env):
     FRESH = ("exec::sym_table::SymTable::new", "std::default::Default::default", "exec::sym_table::SymTable::for_function_call",
              "std::ops::Try::branch", "std::ops::FromResidual::from_residual")
     n = 0
+
+    def check_value(body, operand, label, line, depth=0):
+        """the pushed value (or, when it is a parameter of a helper method, what every caller passes) is freshly constructed"""
+        nonlocal n
+        params = sorted({d[1] for d, _ in origins(body, operand) if d[0] == "param"})
+        top = common.top_fn(F, body)
+        if params and depth < 2 and body.kind != "closure":
+            sites = [(b2, bi2, t2) for b2, bi2, t2 in common.who_calls(F, lambda c: (c.get("resolved") or c.get("def")) == top.path)]
+            if sites and all(k - 1 < len(t2["args"]) for _, _, t2 in sites for k in params):
+                for b2, bi2, t2 in sites:
+                    for k in params:
+                        check_value(b2, t2["args"][k - 1], common.top_fn(F, b2).name, t2["line"], depth + 1)
+                return
+        n += 1
+        srcs = {(callee_def(body.term(d[1])) or body.term(d[1])["callee"].get("name") or "?") for d, _ in _deep_origins(body, operand) if d[0] == "call"}
+        stale = sorted(x for x in srcs if x not in FRESH)
+        ok = bool(srcs) and not stale and not params
+        rep.ob("C05.R8", "fresh::%s" % label, ok,
+               "" if ok else "Environment::%s pushes a table that is not freshly constructed (it comes from %s): bindings of an earlier scope can survive into the new one" % (label, stale or ("a parameter" if params else "nothing recognisable")),
+               body.loc(line), how="pushed value <- %s" % sorted(x.rsplit("::", 1)[-1] for x in srcs))
     for name, m in sorted(env.items()):
         for body in F.with_closures(m):
             for bi, t in body.calls():
@@ -475,14 +495,7 @@ def fresh_scope_rule(ctx, env):
                 if not any(f_.get("name") == "symbols" for f_ in common.ref_target_fields(body, t["args"][0])) and \
                         not any(d[0] == "param" and p[:1] == ("symbols",) for d, p in origins(body, t["args"][0])):
                     continue
-                n += 1
-                srcs = {(callee_def(body.term(d[1])) or body.term(d[1])["callee"].get("name") or "?") for d, _ in _deep_origins(body, t["args"][-1]) if d[0] == "call"}
-                stale = sorted(x for x in srcs if x not in FRESH)
-                others = sorted({d[0] for d, _ in origins(body, t["args"][-1]) if d[0] not in ("call",)})
-                ok = bool(srcs) and not stale and not [o for o in others if o == "param"]
-                rep.ob("C05.R8", "fresh::%s" % name, ok,
-                       "" if ok else "Environment::%s pushes a table that is not freshly constructed (it comes from %s): bindings of an earlier scope can survive into the new one" % (name, stale or others or "nothing recognisable"),
-                       body.loc(t["line"]), how="pushed value <- %s" % sorted(x.rsplit("::", 1)[-1] for x in srcs))
+                check_value(body, t["args"][-1], name, t["line"])
     rep.floor("C05.R8", n, 2, "pushes onto Environment.symbols")
 
 
